@@ -44,6 +44,8 @@ def parseOp (s : String) : Option Op :=
   | ["dup"] => some .duplicate
   | ["ins", a, p] => (parseArg a).map (.insert · p.toNat!)
   | ["insc", a, p] => (parseStr a).map (.insertCstr · p.toNat!)
+  | ["insself", p] => some (.insertSelf p.toNat!)
+  | ["appself"] => some .appendSelf
   | ["app", a] => (parseArg a).map .append
   | ["appd", a] => (parseStr a).map .appendData
   | ["appc", a] => (parseStr a).map .appendCstr
